@@ -100,7 +100,7 @@ Qed.
 Lemma qof_other env g i : fst (rg_rq g) <> i -> lastw i (reg_qof env g) = None.
 Proof.
   intros Hne. apply lastw_none. destruct (reg_exec env g []) as [_ F]. eapply Forall_impl; [|exact F].
-  intros a Ha. cbn beta in Ha |- *. rewrite Ha. exact Hne.
+  intros [t v] Ha. cbn [fst] in Ha |- *. subst t. exact Hne.
 Qed.
 
 Definition reg_ok (f : flat) (g : reginst) : Prop := reg_wf g = true /\ forallb (nid_ok f) (reg_nids g) = true.
@@ -261,9 +261,9 @@ Proof.
     + rewrite (apply_nbas_at (fst (rg_rq g)) (snd (rg_rq g)) ltac:(lia) (reg_qof env g)); auto.
       * now rewrite Hlast.
       * destruct (reg_exec env g []) as [_ F]. eapply Forall_impl; [|exact F]. intros a Ha _. exact Ha.
-    + eapply Forall_impl; [|exact FQ]. intros a (g' & Hg' & Ea) Et. rewrite Ea in Et |- *. unfold tnet in Et. cbn [fst] in Et.
+    + eapply Forall_impl; [|exact FQ]. intros [t v] (g' & Hg' & Ea) Et. cbn [fst] in Ea, Et |- *. subst t. unfold tnet in Et. cbn [fst] in Et.
       assert (g' = g) by (apply (NoDup_map_inj (fun g => fst (rg_rq g)) gs); auto). now subst.
-  - intros i Hi. apply apply_nbas_other. eapply Forall_impl; [|exact FQ]. intros a (g & Hg & Ea) Et.
-    apply Hi. apply in_map_iff. exists g. split; [|exact Hg]. rewrite Ea in Et. exact Et.
+  - intros i Hi. apply apply_nbas_other. eapply Forall_impl; [|exact FQ]. intros [t v] (g & Hg & Ea) Et. cbn [fst] in Ea, Et. subst t.
+    apply Hi. apply in_map_iff. exists g. split; [|exact Hg]. exact Et.
 Qed.
 End Edge.
